@@ -2,6 +2,7 @@ import RbV.Basic.Codec
 import RbV.Spec.Occ
 import RbV.Spec.QGram
 import RbV.Spec.KChain
+import RbV.Model.QGramIter
 /-! Driver for property C19 (line protocol → verdict).
 
 ```
@@ -72,9 +73,12 @@ def verdictCodes (ah qs th out : String) : String :=
     match (outField out "w").bind parseNat, (outField out "f").bind parseNatList, (outField out "r").bind parseNatList with
     | some w, some f, some r =>
       let exp := fwdCodes A q text
-      if w ≠ b then s!"diff w={b}" else
-      if f ≠ exp then "diff f=" ++ showNatList exp else
-      if r ≠ exp.reverse then "diff r=" ++ showNatList exp.reverse else
+      -- the mirror models of the two iterators are proved equal to the reference (Thm.C19.qgrams_model_refines,
+      -- rev_qgrams_mirror); they are run as well so that a disagreement could only be a driver defect
+      if qgramsModel A q text ≠ exp || revQgramsModel A q text ≠ exp.reverse then "bad-op model-vs-reference" else
+      if w ≠ b then s!"diff w {b}" else
+      if f ≠ exp then "diff f " ++ showNatList exp else
+      if r ≠ exp.reverse then "diff r " ++ showNatList exp.reverse else
       "ok" ++ (if exp.length ≥ 2 && A.length ≥ 2 then " nt" else "") ++ " codes"
         ++ (if !isPow2 A.length then " np2" else "") ++ (if b * q = 64 then " full-word" else "")
         ++ (if b * q > 32 then " wide" else "") ++ (if exp.isEmpty then " short-text" else "")
@@ -107,8 +111,8 @@ def checkQuery (A : List Nat) (q mc : Nat) (text : List Nat) (qu : Query) (res :
   let oobQ := patCodes.any (· ≥ cap)
   let panicked := res.startsWith "P!"
   let classify (negdiag : Bool) : Option (Bool × String) :=
-    if res.startsWith "P!index-out-of-bounds" && oobQ then some (true, "known-oob-nonpow2 query " ++ res)
-    else if res.startsWith "P!attempt-to-subtract-with-overflow" && negdiag then some (true, "known-negdiag matches " ++ res)
+    if res.startsWith "P!index-out-of-bounds" && oobQ then some (true, "oob-nonpow2 query " ++ res)
+    else if res.startsWith "P!attempt-to-subtract-with-overflow" && negdiag then some (true, "negdiag-underflow matches " ++ res)
     else some (false, "unexpected-panic " ++ res)
   let _ := b
   match qu with
@@ -154,7 +158,7 @@ def verdictIdx (ah qs mcs th qus out : String) : String :=
     let cap := A.length ^ q
     let oobText := (fwdCodes A q text).any (· ≥ cap)
     if out.startsWith "BUILDPANIC " then
-      if (out.drop 11).toString.startsWith "index-out-of-bounds" && oobText then "reject known-oob-nonpow2 build " ++ out
+      if (out.drop 11).toString.startsWith "index-out-of-bounds" && oobText then "reject oob-nonpow2 build " ++ out
       else "reject build-panic " ++ out
     else if !out.startsWith "ok " then
       (if out.startsWith "PANIC" || out.startsWith "HANG" || out.startsWith "CRASH" then "reject " ++ out else "bad-op idx-output")
@@ -199,7 +203,7 @@ def lcsCheck (ms : List M) (k : Nat) (out : String) : Option String × List Stri
       | some opt =>
         let cs := score k (pathMatches ms path)
         if cs ≠ opt then (some s!"reject lcskpp-chain-not-optimal chain-score={cs} optimum={opt}", [])
-        else if sc ≠ opt then (some s!"diff score={opt}", [])
+        else if sc ≠ opt then (some s!"diff score {opt}", [])
         else (none, (if path.length ≥ 2 then ["chain>=2"] else []) ++
               (if (pathMatches ms path).zip ((pathMatches ms path).drop 1) |>.any (fun (a, b) => cont a b && !nonov k a b) then ["has-cont"] else []) ++
               (if (pathMatches ms path).zip ((pathMatches ms path).drop 1) |>.any (fun (a, b) => nonov k a b) then ["has-jump"] else []) ++
@@ -245,9 +249,9 @@ def verdictKmer (ks xh yh out : String) : String :=
     let exp := kmerMatches x y k
     match (outField out "m").bind parsePairs, (outField out "h1").bind parsePairs, (outField out "h2").bind parsePairs with
     | some m, some h1, some h2 =>
-      if m ≠ exp then "diff m=" ++ showPairs exp else
-      if h1 ≠ exp then "diff h1=" ++ showPairs exp else
-      if h2 ≠ exp then "diff h2=" ++ showPairs exp else
+      if m ≠ exp then "diff m " ++ showPairs exp else
+      if h1 ≠ exp then "diff h1 " ++ showPairs exp else
+      if h2 ≠ exp then "diff h2 " ++ showPairs exp else
       match lcsCheck exp k out with
       | (some v, _) => v
       | (none, t1) =>
